@@ -389,6 +389,12 @@ def runSeq (args : List String) : String :=
   let script := (Wire.listArg args 1).map evOf
   if ops.isEmpty then "-" else " ; ".intercalate ((trace (init script) ops).map renderStep)
 
+/-- `ws_session <op codes> <script codes>`: the same calls made by a view under `websocket_session`, which then
+raises: the shortcut creates the wrapper, awaits the view and does nothing else - in particular it forwards nothing
+of its own after the view has ended (` ; END -`) -/
+def runSession (args : List String) : String :=
+  (if (Wire.listArg args 0).isEmpty then "-" else runSeq args) ++ " ; END -"
+
 def DenyRes.render : DenyRes → String
   | .done => "ok" | .assertionError => "AssertionError" | .valueError => "ValueError"
 
